@@ -39,6 +39,9 @@ import YataProofs.Indicators.KeltnerRun
 import YataProofs.Indicators.CMORun
 import YataProofs.Indicators.ADXRun
 import YataProofs.Indicators.AnyState
+import YataProofs.Indicators.SARRun
+import YataProofs.Indicators.TSIxRun
+import YataProofs.Indicators.EnvRun
 import YataProofs.Indicators.AroonRun
 import YataProofs.Indicators.PChanRun
 import YataProofs.Numeric.TSIRange
@@ -227,6 +230,33 @@ theorem C12_mfi_any_state (s : MFI) (k : Candle ℚ) (vs : List VExp) (s' : MFI)
 theorem C12_rsi_any_state (s : RSI) (k : Candle ℚ) (vs : List VExp) (s' : RSI) (h : s.vals k = .ok (vs, s')) :
     ∃ v, vs = [v] ∧ 0 ≤ v.value ∧ v.value ≤ 1 := RSI.vals_any_state s k vs s' h
 
+/-- Parabolic SAR over whole streams, from its constructor: on every stream of candles with low ≤ high the returned trend
+    is ±1 and the returned SAR is on the far side of that step's candle at every step -/
+theorem C12_sar_run (a b : ℚ) (k0 : Candle ℚ) (s0 : SAR) (h0 : SAR.init a b k0 = .ok s0) (cs : List (Candle ℚ))
+    (hv : ∀ k ∈ cs, k.low ≤ k.high) :
+    ∀ i (hi : i < cs.length), ∃ sar trend,
+      (((SAR.run s0 cs).1[i]'(by rw [SAR.run_length]; exact hi)).1.map VExp.value) = [sar, trend] ∧
+      (trend = 1 ∨ trend = -1) ∧ (trend = 1 → sar ≤ cs[i].low) ∧ (trend = -1 → cs[i].high ≤ sar) :=
+  SAR.run_side a b k0 s0 h0 cs hv
+
+/-- TrueStrengthIndex / SMIErgodic over whole streams, from the constructor, every accepted configuration whose smoothing
+    average cannot overshoot: no step panics, TSI value and signal line in [−1, 1] at every step -/
+theorem C12_tsi_indicator_run {P : Nat} (c : TSIxCfg) (smooth : MA) (ok : Bool) (k0 : Candle ℚ) (s0 : TSIx) (smi : Bool)
+    (h0 : TSIx.init P c smooth ok k0 = .ok s0)
+    (hs : validLen P smooth.kind smooth.length) (sm : smoothKind smooth.kind = true) (cs : List (Candle ℚ)) :
+    ∃ outs s', runM (fun s k => s.vals k none smi) s0 cs = .ok (outs, s') ∧ outs.length = cs.length ∧
+      ∀ o ∈ outs, ∃ v0 v1 rest, o = v0 :: v1 :: rest ∧ -1 ≤ v0.value ∧ v0.value ≤ 1 ∧ -1 ≤ v1.value ∧ v1.value ≤ 1 :=
+  TSIx.run_range c smooth ok k0 s0 smi h0 hs sm cs
+
+/-- Envelopes over whole streams, from the constructor, every non-overshooting kind: on every stream of candles with a
+    non-negative source price no step panics and upper ≥ lower at every step -/
+theorem C12_envelopes_run {P : Nat} (c : EnvCfg) (k0 : Candle ℚ) (hv : Env.validate c = true)
+    (h1 : validLen P c.ma.kind c.ma.length) (sm : smoothKind c.ma.kind = true) (hk0 : 0 ≤ k0.source c.source)
+    (cs : List (Candle ℚ)) (hcs : ∀ k ∈ cs, 0 ≤ k.source c.source) :
+    ∃ s0 outs s', Env.init P c k0 = .ok s0 ∧ runM Env.vals s0 cs = .ok (outs, s') ∧ outs.length = cs.length ∧
+      ∀ o ∈ outs, ∃ up lo src2, o.map VExp.value = [up, lo, src2] ∧ lo ≤ up :=
+  Env.run_order c k0 hv h1 sm hk0 cs hcs
+
 /-- Bollinger bands over whole streams, from the constructor: no step panics, the centre is the mean and the quantity under
     the square root is the sample variance of the last `avg_size` sources — non-negative at every step, hence
     upper ≥ middle ≥ lower (the bands are `middle ± sigma·sqrt(variance)`, sigma > 0) -/
@@ -332,3 +362,6 @@ end Yata.C12
 #print axioms Yata.C12.C12_cmo_any_state
 #print axioms Yata.C12.C12_mfi_any_state
 #print axioms Yata.C12.C12_rsi_any_state
+#print axioms Yata.C12.C12_sar_run
+#print axioms Yata.C12.C12_tsi_indicator_run
+#print axioms Yata.C12.C12_envelopes_run
